@@ -191,7 +191,10 @@ def c06_case(ctx: Ctx, case: dict):
             if gname in exact:
                 gv = abs(exact[gname])
                 if abs(gv - common.mpf(delta)) <= 64 * spread[gname] + common.mpf(delta) * common.mpf("1e-9"):
-                    near = True
+                    # ... unless the linearisation is exact there (a parameter, a multiple of a state that is 0): then
+                    # `|g| > delta` has one answer, also at |g| == delta (with delta = 0: g == 0, the division the guard is for)
+                    if not (spread[gname] == 0 and gv == common.mpf(delta)):
+                        near = True
         if near:
             ctx.count("points_near_delta")
             continue
@@ -245,6 +248,12 @@ def c06_family(ctx: Ctx):
     rng = ctx.rng
     # first, deterministically: a non-default delta with |g| between the default and that delta, under every accepted name
     fixed = getattr(ctx, "_c06_fixed", 0)
+    if fixed == 2:
+        # delta = 0 is legal: the guard then is `g != 0`, and g == 0 exactly must give the Euler step, not 0/0
+        ctx._c06_fixed = 3
+        pts = [{"x": 1.3, "y": yv, "a": ga, "b": 0.9, "t": 0.0, "dt": dt_} for ga in (0.0, 1e-3) for yv in (0.0, -0.8) for dt_ in (1.0, 1e-3)]
+        return {"text": "states(x=1, y=2)\nparameters(a=0.001, b=0.9)\ndx_dt = a*x + b*y\ndy_dt = -y*y\n", "delta": 0.0, "points": pts,
+                "alias": "generalized_rush_larsen"}
     if fixed < 2:
         ctx._c06_fixed = fixed + 1
         alias = ["generalized_rush_larsen", "forward_generalized_rush_larsen"][fixed]
